@@ -90,12 +90,10 @@ inductive Damage where
   | typeMissing | wrongKind | notInFile | restResults | restParseFail | exportedGetFlag | manualBadParam | manualTwice | formatFail
   -- generate phase, Go runtime panic (finding regions)
   | valueRecv | manualUnnamed | manualNoBody | setterIface | univEmbed
-  -- clean phase (finding region)
-  | cleanNoNewline
   deriving DecidableEq, Repr
 
 /-- `outs`: the files the command line would write if the damage is not fatal for this sub-command;
-    `stale`: files Clean would inspect (for `cleanNoNewline` the first one has no newline) -/
+    `stale`: files Clean removes -/
 def classify (cmd : Cmd) (d : Damage) (outs : List String) (stale : List String) : Input :=
   match d with
   | .none => { outputs := outs, removes := stale }
@@ -104,10 +102,9 @@ def classify (cmd : Cmd) (d : Damage) (outs : List String) (stale : List String)
   | .twoPackages => { load := .fatal }
   | .typeMissing | .wrongKind =>
     match cmd with
-    | .new | .map => { gen := .fatal }
-    | .enum | .rest => { outputs := outs }     -- enum skips the name, rest generates for it (C16 findings)
+    | .new | .map | .rest => { gen := .fatal }
+    | .enum => { outputs := outs }     -- enum skips the name with a warning and generates the others
   | .notInFile | .restResults | .restParseFail | .exportedGetFlag | .manualBadParam | .manualTwice | .formatFail => { gen := .fatal }
   | .valueRecv | .manualUnnamed | .manualNoBody | .setterIface | .univEmbed => { gen := .panic }
-  | .cleanNoNewline => { outputs := outs, removes := stale, cleanErr := some 0 }
 
 end ShootVerif.Phases
